@@ -17,6 +17,7 @@ from beartype._data.typing.datatyping import (
     Pep484TowerFloat,
 )
 from beartype._util.cache.utilcachecall import callable_cached
+from beartype._data.kind.datakindiota import SENTINEL
 from beartype._util.kind.maplike.utilmapfrozen import FrozenDict
 from typing import Optional
 
@@ -44,9 +45,11 @@ def sanify_conf_kwargs_is_pep484_tower(conf_kwargs: DictStrToAny) -> None:
     hint_overrides = conf_kwargs['hint_overrides']
 
     # Target hint overrides for the source "float" and "complex" types if any
-    # *OR* "None" otherwise.
-    hint_overrides_float = hint_overrides.get(float)
-    hint_overrides_complex = hint_overrides.get(complex)
+    # *OR* the sentinel placeholder otherwise. Note that "None" is a valid
+    # target hint override (equivalent to the type of the "None" singleton) and
+    # thus *NOT* safely usable as a placeholder here.
+    hint_overrides_float = hint_overrides.get(float, SENTINEL)
+    hint_overrides_complex = hint_overrides.get(complex, SENTINEL)
 
     # Whichever of the "float" or "complex" types are already existing overrides
     # in the passed type hint overrides.
@@ -56,12 +59,12 @@ def sanify_conf_kwargs_is_pep484_tower(conf_kwargs: DictStrToAny) -> None:
     # If these overrides already define conflicting overrides for either the
     # "float" or "complex" types, record that fact.
     if (
-        hint_overrides_float and
+        hint_overrides_float is not SENTINEL and
         hint_overrides_float != HINT_OVERRIDES_PEP484_TOWER[float]
     ):
         hint_override_cls_conflict = float
     elif (
-        hint_overrides_complex and
+        hint_overrides_complex is not SENTINEL and
         hint_overrides_complex != HINT_OVERRIDES_PEP484_TOWER[complex]
     ):
         hint_override_cls_conflict = complex
